@@ -11,7 +11,10 @@ MANIFEST = dict(
     technique="Lean 4 proof over a model regenerated from source by a translator + translation validation + correspondence run",
     design="5/C13",
 )
-GEN = ["Versions", "BatchSelfTest"]
+GEN = ["Versions"]
+SUPP_GEN = ["BatchSelfTest"]
+# not stated by the property text: Props/C13Supp.lean (reported as INFO, never a verdict)
+SUPP_THEOREMS = ["c13_selftest_translated", "c13_selftest_table_agrees"]
 THEOREMS = [
     "c13_translated",
     "c13_iff_before_cutoff",
@@ -28,8 +31,6 @@ THEOREMS = [
     "c13_bad_member_isolated",
     "c13_single_messages_unaffected",
     "c13_version_change_mid_connection",
-    "c13_selftest_translated",
-    "c13_selftest_table_agrees",
 ]
 RULE = (
     "decision: every string dddd-dd-dd (all 10^4 month/day digit pairs) of the years 2015..2035 (quick) / 1990..2199 "
